@@ -64,9 +64,28 @@ func genC18(r *Rng, tier string, o *Out) {
 			allowRewind := r.Chance(8) // a minority of histories may contain rewinding discards
 			next := byte(r.Intn(256))
 			written, readpos := 0, 0 // logical positions, to steer towards full/empty and guard rewinds
+			// a directed minority: writes that do not fit, reads past a stride boundary, a discard back onto
+			// that boundary (the known backwards move), then a write of the true room plus a little and a
+			// read of everything: after a backwards move the ring must still be a coherent FIFO
+			directed := r.Chance(6)
+			if directed {
+				allowRewind = true
+				nops = 4*r.Range(1, 3) + 4
+			}
+			script := []int{}
+			if directed {
+				for j := 0; j < (nops-4)/4; j++ {
+					script = append(script, 45, 50, 45, 50) // write, read, write, read
+				}
+				script = append(script, 50, 95, 41, 85) // read, discard, overfill write, read all
+			}
 			for k := 0; k < nops; k++ {
-				switch c := r.Intn(100); {
-				case c < 40: // write
+				c := r.Intn(100)
+				if directed && k < len(script) {
+					c = script[k]
+				}
+				switch {
+				case c < 40 || c == 41 || c == 45: // write
 					if wr.BytesWriteable() < 0 {
 						cur = "D 1"
 						rd.DiscardStride(1)
@@ -76,13 +95,22 @@ func genC18(r *Rng, tier string, o *Out) {
 						continue
 					}
 					var ln int
-					switch r.Intn(4) {
+					sel := r.Intn(4)
+					if c == 41 {
+						sel = 1
+					} else if c == 45 {
+						sel = 3
+					}
+					switch sel {
 					case 0:
 						ln = wr.BytesWriteable() // exactly fill
 					case 1:
 						ln = wr.BytesWriteable() + r.Range(1, 5) // overfill
 					default:
 						ln = r.Range(0, capv)
+						if c == 45 {
+							ln = r.Range(capv/2, capv)
+						}
 					}
 					d := make([]byte, ln)
 					for j := range d {
@@ -132,6 +160,12 @@ func genC18(r *Rng, tier string, o *Out) {
 					fmt.Fprintf(&sb, " A %s", hexs(cp))
 				default: // discard to stride (k>=1)
 					kk := r.Pick(1, 2, 3, 4, 8, 16)
+					if directed {
+						kk = r.Pick(8, 16, 32, capv, 2*capv-1)
+						if kk < 1 {
+							kk = 1
+						}
+					}
 					np := written - written%kk
 					if np < readpos && !allowRewind {
 						kk = 1
